@@ -202,6 +202,14 @@ impl<W: io::Write> WriteExt for GuardWindowWriter<W> {
             return Err(io::Error::new(io::ErrorKind::Other, "injected reserve_with error"));
         }
         self.reserved = Some(additional);
+        if cfg!(miri) {
+            // under Miri: an allocation of exactly the requested size, left UNINITIALISED: Miri itself
+            // reports any access past it and any uninitialised byte that flush_len later commits
+            let mut v: Vec<u8> = Vec::with_capacity(additional);
+            let p = v.as_mut_ptr() as *mut MaybeUninit<u8>;
+            self.big = v;
+            return Ok(unsafe { std::slice::from_raw_parts_mut(p, additional) });
+        }
         if additional > WINDOW_PAGES * PAGE {
             // too big for the guarded window: plain buffer of exactly the requested size
             self.big = crate::heap::harness(|| vec![0xAAu8; additional]);
@@ -234,7 +242,9 @@ impl<W: io::Write> WriteExt for GuardWindowWriter<W> {
             trace::nontrivial();
             return Err(io::Error::new(io::ErrorKind::Other, "injected flush_len error"));
         }
-        let data: &[u8] = if res > WINDOW_PAGES * PAGE {
+        let data: &[u8] = if cfg!(miri) {
+            std::slice::from_raw_parts(self.big.as_ptr(), additional)
+        } else if res > WINDOW_PAGES * PAGE {
             &self.big[..additional]
         } else {
             let end = window_base().add(WINDOW_PAGES * PAGE);
@@ -298,6 +308,10 @@ unsafe impl Sync for GStr {}
 
 impl GStr {
     pub fn new(s: &str, dist: usize) -> GStr {
+        if cfg!(miri) {
+            // Miri checks the bounds of the exact allocation itself
+            return GStr::Heap(s.to_string());
+        }
         let slot = SLOT_NEXT.load(Ordering::SeqCst);
         if slot >= SLOTS || s.len() + dist > SLOT_DATA_PAGES * PAGE {
             return GStr::Heap(s.to_string());
